@@ -141,6 +141,25 @@ func exportXML(v value.Value) (out []byte, err error, pan string) {
 
 func isSpace(s string) bool { return strings.TrimSpace(s) == "" }
 
+// plainListStyle reports whether a wrapper around the value carries the style plainList
+// (as a string, or as a key of a style map).
+func plainListStyle(t vtree.Tree) bool {
+	for t.K == "format" || t.K == "link" {
+		if t.K == "format" && t.Style != nil {
+			if t.Style.K == "str" && t.Style.S == "plainList" {
+				return true
+			}
+			for _, k := range t.Style.Keys {
+				if k == "plainList" {
+					return true
+				}
+			}
+		}
+		t = t.X[0]
+	}
+	return false
+}
+
 func unwrap(t vtree.Tree) vtree.Tree {
 	for t.K == "format" || t.K == "link" {
 		t = t.X[0]
@@ -534,12 +553,15 @@ func checkHTML(c Case) string {
 	}
 	// structure: a list shows its entries in order, at least the first one and as many as
 	// the size limit allows (a limit below one is a limit of one)
-	if top := unwrap(tree); top.K == "list" && c.Custom == 0 {
+	if top := unwrap(tree); top.K == "list" && c.Custom == 0 && !plainListStyle(tree) {
 		limit := max(c.MaxList, 1)
 		var want []string
 		for i, it := range top.X {
 			if i >= limit {
 				break
+			}
+			if plainListStyle(it) {
+				continue // (the style plainList writes the items one behind the other, without cells and without limit)
 			}
 			it = unwrap(it)
 			if it.K == "list" && len(it.X) > 0 {
